@@ -2,14 +2,16 @@ package openapi3
 
 func newVisited() visitedComponent {
 	return visitedComponent{
-		header: make(map[*Header]struct{}),
-		schema: make(map[*Schema]struct{}),
+		header:   make(map[*Header]struct{}),
+		schema:   make(map[*Schema]struct{}),
+		callback: make(map[*Callback]struct{}),
 	}
 }
 
 type visitedComponent struct {
-	header map[*Header]struct{}
-	schema map[*Schema]struct{}
+	header   map[*Header]struct{}
+	schema   map[*Schema]struct{}
+	callback map[*Callback]struct{}
 }
 
 // resetVisited clears visitedComponent map
@@ -37,5 +39,16 @@ func (doc *T) isVisitedSchema(s *Schema) bool {
 	}
 
 	doc.visited.schema[s] = struct{}{}
+	return false
+}
+
+// isVisitedCallback returns `true` if the *Callback pointer was already visited
+// otherwise it returns `false`
+func (doc *T) isVisitedCallback(c *Callback) bool {
+	if _, ok := doc.visited.callback[c]; ok {
+		return true
+	}
+
+	doc.visited.callback[c] = struct{}{}
 	return false
 }
